@@ -17,7 +17,7 @@ bo=0; for m in . src/free5gclib src/tglib src/stgutg; do ( cd $B/$m && go build 
 "$DST/run_demo.sh" $B >$B/.demo.log 2>&1; d1=$?
 res=""
 for i in $(seq -w 1 20); do
-  VERIF_REPO=$B VERIF_EVIDENCE_DIR=$B/.ev /verif/bin/stgverif C$i quick > $B/.out.txt 2>&1; rc=$?
+  VERIF_REPO=$B VERIF_EVIDENCE_DIR=$B/.ev ${SV:-/verif/bin/stgverif} C$i quick > $B/.out.txt 2>&1; rc=$?
   if [ $rc -ne 0 ]; then res="$res C$i=$rc"; echo "   [$ID] C$i rc=$rc: $(grep '^UNDECIDED\|: R[0-9]' $B/.out.txt | head -2 | cut -c1-330)"; fi
 done
 echo "{\"id\":\"$ID\",\"clean_demo_passes\":$([ $d0 -eq 0 ] && echo true || echo false),\"patch_applies\":$([ $ap -eq 0 ] && echo true || echo false),\"patched_builds\":$([ $bo -eq 0 ] && echo true || echo false),\"patched_tests_pass\":$([ $t -eq 0 ] && echo true || echo false),\"patched_demo_passes\":$([ $d1 -eq 0 ] && echo true || echo false),\"checks_not_silent\":\"$res\",\"repo_head\":\"$(git -C /repo rev-parse --short HEAD)\"}" > "$DST/confirm.json"
